@@ -450,6 +450,20 @@ def stepReg (st : DState) (args : List String) : Option (DState × String) :=
         some (st, showVRes r v)
       | some (.error e), some _ => some (st, "err " ++ e.name)
       | _, _ => some (st, bad)
+  | ["q_hash", a, b] =>
+    match parseQty? r .ROUND_HALF_EVEN a, parseQty? r .ROUND_HALF_EVEN b with
+    | some (.ok a), some (.ok b) =>
+      some (st, match q.qtyEq a b with
+        | .ok e => s!"ok eq={e} hasheq={q.qtyHashKey a == q.qtyHashKey b}"
+        | .error e => "err " ++ e.name)
+    | _, _ => some (st, bad)
+  | ["u_hash", u, v] =>
+    match unitId? r u, unitId? r v with
+    | some u, some v =>
+      some (st, match r.unitEq u v with
+        | some e => s!"ok eq={e} hasheq={q.unitHashKey u == q.unitHashKey v}"
+        | none => "err AssertionError")
+    | _, _ => some (st, bad)
   | ["q_mixnum", op, _a, _kind] =>
     let mop : Option QState.MixOp := match op with
       | "add" => some .add | "radd" => some .radd | "sub" => some .sub | "rsub" => some .rsub
